@@ -252,11 +252,11 @@ class Action:
                 self.context.update(event.arguments)
                 self.status = ActionStatus.FINISHED
                 self.flow_scope_count = 0
-            elif "Start" in event.name:
+            elif event.name.startswith("Start"):
                 self.context.update(event.arguments)
                 self.status = ActionStatus.STARTING
                 self.flow_scope_count = 1
-            elif "Stop" in event.name:
+            elif event.name.startswith("Stop"):
                 self.context.update(event.arguments)
                 self.status = ActionStatus.STOPPING
 
